@@ -5,6 +5,7 @@
     RACFGBuilder::on_before_invoke        the argument loop, the callee-pops adjustment, `update_call_stack_size`
     RACFGBuilder::move_vec_to_ptr         by-reference vector: stack temporary + pointer
     RACFGBuilder::move_imm_to_reg_arg     immediate -> new virtual register
+    RACFGBuilder::move_reg_to_reg_arg     8/16-bit register -> wider integer register parameter (fix C06-17)
     RACFGBuilder::move_imm_to_stack_arg   immediate -> stack slot (64-bit split / sign-extending shortcut)
     RACFGBuilder::move_reg_to_stack_arg   register -> stack slot with extension
 
@@ -165,6 +166,18 @@ def regStackInsts (is64 avx : Bool) (dt : Nat) (off : Int) (rid : Nat) (st : Nat
 def moveRegToStackArg (s : LSt) (arg : FuncValue) (rid : Nat) (st : Nat) (isVecReg : Bool) : Except String LSt :=
   (regStackInsts s.is64 s.avx arg.typeId arg.stackOffset rid st isVecReg).map s.emitAll
 
+/-- `move_reg_to_reg_arg` (fix C06-17): an 8/16-bit GP register for a wider integer register parameter is extended into a new
+    virtual register of the parameter's width (32 bits for parameters up to 32 bits); answers the state and the new (rt, id) -/
+def moveRegToRegArg (s : LSt) (arg : FuncValue) (vid : Nat) (st : Nat) : Except String (LSt × Nat × Nat) :=
+  let signExt := arg.typeId % 2 = 0 && st % 2 = 0
+  let rt := if tySize arg.typeId > 4 then 6 else 5
+  let id := s.nextV
+  let s := { s with nextV := id + 1 }
+  let n : Mnm := if signExt then .movsx else .movzx
+  if isGp8 st then .ok (s.emit ⟨n, false, [.reg rt id, .reg 2 vid], false⟩, rt, id)
+  else if isGp16 st then .ok (s.emit ⟨n, false, [.reg rt id, .reg 4 vid], false⟩, rt, id)
+  else .error "InvalidState"
+
 /-- `move_vec_to_ptr`: the temporary, the pointer register (answered), the store; for a stack argument the pointer is stored too -/
 def moveVecToPtr (s : LSt) (arg : FuncValue) (vid : Nat) : Except String (LSt × Nat) :=
   let sz0 := tySize arg.typeId
@@ -193,7 +206,12 @@ def lowerValue (s : LSt) (arg : FuncValue) (op : ArgOp) : Except String (LSt × 
   | .gp vid t =>
     if arg.isReg then
       if arg.isIndirect then (if gpRtOfType t ≠ s.nativeRt then .error "InvalidAssignment" else .ok (s, op))
-      else if groupOfRt arg.regType ≠ 0 then .error "InvalidAssignment" else .ok (s, op)
+      else if groupOfRt arg.regType ≠ 0 then .error "InvalidAssignment"
+      else if isInt arg.typeId && (isGp8 t || isGp16 t) && decide (tySize arg.typeId > tySize t) then
+        match moveRegToRegArg s arg vid t with
+        | .error e => .error e
+        | .ok (s, rt, id) => .ok (s, .gp id (if rt = 6 then 41 else 39))
+      else .ok (s, op)      -- 32-bit registers (and everything that is not narrower) are passed as they are
     else
       if arg.isIndirect then
         if gpRtOfType t ≠ s.nativeRt then .error "InvalidAssignment" else (moveRegToStackArg s arg vid t false).map fun s => (s, op)
